@@ -11,6 +11,7 @@ def dispOf : String → Option Disp
   | "missro" => some (.executed (.miss .normal false))
   | "fail" => some (.executed .errProcess)
   | "pperr" => some (.executed .errorPP)
+  | "fatal" => some (.executed .errFatal)
   | "notcacheable" => some .notCacheable
   | "notcompile" => some .notCompile
   | "unsupported" => some .unsupported
